@@ -348,6 +348,22 @@ pub fn run_rf(seed: u64, n: usize, out: &str, salt: u64, extra: &[String]) {
     let model_limit: usize = extra.get(0).and_then(|s| s.parse().ok()).unwrap_or(150);
     let kmax: f64 = extra.get(1).and_then(|s| s.parse().ok()).unwrap_or(60.0);
     let size_cap: f64 = extra.get(2).and_then(|s| s.parse().ok()).unwrap_or(2.0);
+    // corpus first: refinement requests that need MANY passes before they converge (tight aspect-ratio bounds; 65..90 passes
+    // against the usual 10..25): a bounded or early-exit refinement loop returns Ok before its fixed point (seeded change C18-m4).
+    // The meshes are larger than the model limit, so these cases are judged by the exact-rational oracle on the crate's output.
+    if n >= 30 {
+        let deep: [(&[(f64, f64)], f64, f64); 3] = [
+            (&[(1.745, 0.676), (-3.717, 2.139), (-0.827, -1.754), (2.937, -3.256)], 0.921, 1.351),
+            (&[(1.905, 3.416), (-2.268, 1.225), (-2.414, -1.665), (2.535, -2.343)], 1.084, 1.181),
+            (&[(3.228, 1.69), (-1.883, 2.626), (-3.457, 0.331), (-1.162, -2.468), (1.554, -2.159)], 0.364, 1.292),
+        ];
+        for (pts, a, m) in deep.iter() {
+            let fr = Frame::xy();
+            let outer: Vec<Point3D> = pts.iter().map(|p| fr.at(p.0, p.1)).collect();
+            let pc = PolyCase { outer, holes: vec![], note: format!("deeprefine:{}:h0:plane0", pts.len()), bridge_ok: true, outer2: pts.to_vec(), holes2: vec![], fr };
+            rf_case(&pc, *a as Float, *m as Float, model_limit, 60, &mut sink);
+        }
+    }
     while sink.len() < n {
         let nm = if r.chance(0.2) { 24 } else { 9 };
         let pc = rand_polycase(&mut r, nm, 2, size_cap, 100.0);
